@@ -491,6 +491,33 @@ def x7_shutdown_flag(F, R):
                     'the connection flag `%s` is assigned %s: an event arriving after the peer\'s shutdown can clear it again, the connection is then never reset and '
                     'removed once its buffered data has been read' % (last['n'], fmt(v)[:80]))
     R.count('shutdown_flag_stores', n)
+    # the connection's state flags start cleared and are only ever set: a new connection (a connect that still waits for the peer's
+    # response, an incoming request not yet accepted) is constructed with every boolean false, and every later assignment stores
+    # true - so "established" is reported only after the event that establishes it
+    m = 0
+    for b in F.bodies.values():
+        if not F.handwritten(b) or 'connectionmanager' not in b['id']:
+            continue
+        sg = supergraph(F, b['id'], tag='flat', max_depth=0)
+        S = sg.sym
+        for nd in sg.nodes:
+            if nd.kind == 'assign' and nd.d['rv']['rv'] == 'agg' and nd.d['rv'].get('adt') == conn:
+                rv = nd.d['rv']
+                for f_, o_ in zip(rv['fields'], rv['ops']):
+                    if f_ in all_bools:
+                        m += 1
+                        v = strip_conv(S.operand(nd.id, o_))
+                        R.check(v[0] == 'const' and v[1] == 0, 'X7', '%s:%s:starts-cleared' % (b['id'], f_), site(sg, nd), 'a new connection has `%s` = false' % f_,
+                                'a new connection is constructed with `%s` = %s: it is reported in that state before the event that puts it there' % (f_, fmt(v)[:40]))
+            if nd.kind != 'assign' or not nd.d['place']['p']:
+                continue
+            last = nd.d['place']['p'][-1]
+            if isinstance(last, dict) and last.get('adt') == conn and last.get('n') in all_bools and last.get('n') not in bools:
+                m += 1
+                v = strip_conv(S.rvalue(nd.id, nd.d['rv']))
+                R.check(v[0] == 'const' and v[1] == 1, 'X7', '%s:%s:set-only' % (b['id'], last['n']), site(sg, nd), 'the flag is assigned the constant true',
+                        'the connection flag `%s` is assigned %s where the protocol event sets it: the connection never reaches (or leaves) that state' % (last['n'], fmt(v)[:60]))
+    R.count('state_flag_sites', m)
 
 
 def run(F, R):
